@@ -9,7 +9,7 @@ func init() {
 	register(&propDef{
 		id: "C30", title: "A grain is active on at most one node at a time",
 		technique: "who-may-call + AST nesting (every local activation runs under the per-identity single flight), CFG ordering (ownership claim ≺ activate; mismatch/error edges never activate), put-if-absent rule for the claim, rollback pairing on failure edges",
-		explanation: "Decides the local protocol shape that the cluster-wide property needs: (1) every call of grainPID.activate sits in a function that runs only inside the closure handed to runGrainActivation (per-identity single flight): the closures themselves, ensureExistingGrainProcess / ensureNewGrainProcess / recreateGrainOnce called from them; (2) on the send path the ownership check/claim (ensureGrainOwnership, tryClaimGrain) precedes activate, and its error and owner-mismatch edges never reach activate; (3) the claim is a put-if-absent (PutGrainIfAbsent), the existing-key error is mapped to 'not claimed, owner = registry value'; (4) rollback: a failed activate on a path that made a claim releases it (RemoveGrain), and a failed publication rolls back what this call created (finalizeGrainActivation). NOT decided: cross-node interleavings of registry operations, crash points between claim and activation, and convergence of the registry. Added after seed C30a: inside the per-identity single flight the grain table is looked up again before a process is created or re-activated.",
+		explanation: "Decides the local protocol shape that the cluster-wide property needs: (1) every call of grainPID.activate sits in a function that runs only inside the closure handed to runGrainActivation (per-identity single flight): the closures themselves, ensureExistingGrainProcess / ensureNewGrainProcess / recreateGrainOnce called from them; (2) on the send path the ownership check/claim (ensureGrainOwnership, tryClaimGrain) precedes activate, and its error and owner-mismatch edges never reach activate; (3) the claim is a put-if-absent (PutGrainIfAbsent), the existing-key error is mapped to 'not claimed, owner = registry value'; (4) rollback: a failed activate on a path that made a claim releases it (RemoveGrain), and a failed publication rolls back what this call created (finalizeGrainActivation). NOT decided: cross-node interleavings of registry operations, crash points between claim and activation, and convergence of the registry. Added after seed C30a: inside the per-identity single flight the grain table is looked up again before a process is created or re-activated. Added after seed C30b: RemoveGrain is reachable only on a path on which this very call claimed the identity.",
 		assumptions: []string{"atomicity of the registry's put-if-absent across nodes (olric)", "cross-node schedules and node crashes"},
 		minObl:     18,
 		run:        runC30,
@@ -161,6 +161,11 @@ func runC30(c *Ctx) {
 			hasRollback := len(f.Find(rm)) >= 1
 			c.Check(n2 == 1 && hasRollback, fn.String()+"/activate-failure-releases-claim", "a failed activation on a path that claimed the identity releases the claim", c.P.Pos(fn.Decl.Pos()), "no RemoveGrain on the activation-failure branch")
 			_ = w
+			// the dual: the registry entry is removed ONLY by the call that created it — RemoveGrain is reachable only over
+			// an edge on which this call's own claim succeeded (an entry recorded by someone else is the only thing that
+			// keeps another node from claiming the identity)
+			claimedTrue := f.BoolEdges(func(e ast.Expr) bool { id, ok := e.(*ast.Ident); return ok && claimedVars[f.Info.ObjectOf(id)] }, true)
+			c.guardedBy(f, claimedTrue, rm, fn.String()+"/remove-only-own-claim", "the cluster registry entry is removed only on a path on which this very call claimed the identity", c.P.Pos(fn.Decl.Pos()))
 		}
 		// ensureGrainOwnership: mismatch → error
 		eo := c.Func("actor", "actorSystem.ensureGrainOwnership")
